@@ -608,7 +608,8 @@ def _pentapy_solver(ab, y, check_output=False, pentapy_solver=2):
 
     """
     output = _pentapy_solve(ab, y, is_flat=True, index_row_wise=True, solver=pentapy_solver)
-    if check_output and not np.isfinite(output.dot(output)):
+    # check the values themselves since the dot product of large finite values can overflow
+    if check_output and not np.isfinite(output).all():
         raise np.linalg.LinAlgError('non-finite value encountered in pentapy solver output')
 
     return output
